@@ -12,9 +12,9 @@ namespace ppl {
 using namespace sim;
 
 
-enum OpKind { O_QR, O_AEC, O_MM, O_WRITE, O_ROTATE, O_ADD, O_SET, O_CTR, O_EXT };
+enum OpKind { O_QR, O_AEC, O_MM, O_WRITE, O_ROTATE, O_ADD, O_SET, O_CTR, O_EXT, O_EDIT };
 static const char* OPN[] = {"buffer_qr", "buffer_aec", "buffer_mm", "write_block", "rotate_output", "add_block_parameters",
-                            "set_active_block_parameters", "counters", "write_block(ext)"};
+                            "set_active_block_parameters", "counters", "write_block(ext)", "edit-hints-in-place"};
 
 struct POp {
     OpKind kind;
@@ -54,7 +54,7 @@ inline Plan make_plan(uint64_t seed, const std::string& prop) {
     if (prop == "C14" && p.sw.compression == 0) p.sw.compression = 1 + (int)pr.below(2);
     Rng r(mix_str(seed, "ops"));
     const gen::Swarm& s = p.sw;
-    unsigned wsum = s.w_qr + s.w_aec + s.w_mm + s.w_write + s.w_rotate + s.w_add + s.w_set + s.w_ctr + s.w_ext;
+    unsigned wsum = s.w_qr + s.w_aec + s.w_mm + s.w_write + s.w_rotate + s.w_add + s.w_set + s.w_ctr + s.w_ext + s.w_edit;
     for (unsigned i = 0; i < s.n_ops; i++) {
         POp op;
         unsigned x = (unsigned)r.below(wsum);
@@ -68,6 +68,7 @@ inline Plan make_plan(uint64_t seed, const std::string& prop) {
         else if (in(s.w_add)) op.kind = O_ADD;
         else if (in(s.w_set)) op.kind = O_SET;
         else if (in(s.w_ctr)) op.kind = O_CTR;
+        else if (in(s.w_edit)) op.kind = O_EDIT;
         else op.kind = O_EXT;
         op.seed = r.next();
         op.stats = r.below(1000) < s.stats_pm;
@@ -584,6 +585,25 @@ struct Pipeline {
                 break;
             }
             case O_CTR: check_counters("counter query", i); break;
+            case O_EDIT: {
+                // The application edits the active parameter set in place through get_active_block_parameters_ref(). Done only
+                // when nothing is buffered and the output holds no block yet (so that the preamble will state the new hints),
+                // followed by write_block(), the documented way to make parameters take effect for the next block.
+                if (!M.out.blocks.empty() || M.cur.items() != 0) break;
+                cx.tag("edit-hints-in-place");
+                cx.ctr->add("probe.hints_edited_in_place");
+                CDNS::BlockParameters& ref = ex->get_active_block_parameters_ref();
+                Rng q(op.seed);
+                ref.storage_parameters.storage_hints.query_response_hints = gen::hint_mask(q, 18);
+                ref.storage_parameters.storage_hints.query_response_signature_hints = gen::hint_mask(q, 17);
+                ref.storage_parameters.storage_hints.rr_hints = (uint8_t)gen::hint_mask(q, 2);
+                ref.storage_parameters.storage_hints.other_data_hints = q.chance(2, 3) ? 3 : (uint8_t)q.below(4);
+                M.params[M.active] = ref;
+                size_t ret = ex->write_block();
+                bool wrote = M.write_block();
+                after_call(ret, wrote, "write_block (after in-place edit)", i);
+                break;
+            }
             case O_EXT: exec_ext(i, op, g); break;
         }
         probe_state();
